@@ -56,7 +56,7 @@ func runMitmBatch(r *vh.Run, child int) {
 			if idx%mitmBatches != child {
 				continue
 			}
-			c := clientCase{Kind: "client", Stream: kind, Idx: i, Finish: []string{"close", "closewrite"}[i%2]}
+			c := clientCase{Kind: "client", Stream: kind, Idx: i, Finish: []string{"close", "closewrite"}[i%2], Mods: []string{"rec", "stack"}[(i/2)%2]}
 			r.Case(c)
 			runMitmCase(r, c)
 			if stopEarly(r) {
@@ -80,7 +80,8 @@ func runMitmCase(r *vh.Run, c clientCase) {
 	rng := r.Rng("c03-client-"+c.Stream, c.Idx)
 	nonce := fmt.Sprintf("%08x", rng.Uint32())
 	mod := &recMod{}
-	env, err := h1x.Start(h1x.Opts{ResMod: mod, MITM: cfg})
+	reqmod, resmod := modifiers(c.Mods, mod)
+	env, err := h1x.Start(h1x.Opts{ReqMod: reqmod, ResMod: resmod, MITM: cfg})
 	if err != nil {
 		r.Inconclusive("harness: cannot start proxy/origin", err.Error())
 		return
@@ -222,7 +223,7 @@ func runMitmCase(r *vh.Run, c clientCase) {
 			r.ViolationCase(c, "C03:canary:"+c.Stream, fmt.Sprintf("after the hostile client stream the canary on a fresh connection was not served: outcome=%s status=%d closed=%v", m.Outcome, m.Status, v.Closed),
 				map[string]interface{}{"canary_stream": trunc(string(v.Data), 600)})
 		} else {
-			r.Class("client|" + c.Stream + "|" + c.Finish + "|" + hostile)
+			r.Class("client|" + c.Stream + "|" + c.Finish + "|" + c.Mods + "|" + hostile)
 			r.Count("hostile_streams_survived", 1)
 			r.Count("mitm_hostile_streams_survived", 1)
 		}
